@@ -26,6 +26,8 @@ VIOL = {"ApiMissing": "VApiMissing", "OwnerRefs": "VOwnerRefs", "Namespace": "VN
 
 
 def c_ref(r):
+    if min(r[0], r[1], r[2]) < 0:
+        raise Unrepresentable("owner reference with a name / uid outside the model's numbering: %r" % (r,))
     return "(Build_oref %d %d %d %s)" % (r[0], r[1], r[2], cB(r[3] == 1))
 
 
